@@ -58,7 +58,11 @@ func c11NoPanic(q string) (*Query, error) {
 				lone = true
 			}
 		}
-		verifrt.Finding("C11-KF1", lone)
+		if lone {
+			verifrt.Finding("C11-KF1", true)
+		} else {
+			verifrt.Assert(false, "the query parser panicked")
+		}
 		return nil, nil
 	}
 	if query == nil && err == nil {
